@@ -160,6 +160,9 @@ def run(tier, replay):
     gens = [("fast", "Gen_Proxy_fast_thorough.cfg" if thorough else "Gen_Proxy_fast_quick.cfg", 450, 3),
             ("trickle6", "Gen_Proxy_trickle6.cfg", 600, 6),
             ("fwd", "Gen_Proxy_fwd.cfg" if thorough else "Gen_Proxy_fwd_quick.cfg", 450, 3)]
+    # the pause/trickle family again with a timeout long enough that "one more whole timeout" (a per-operation
+    # timer re-armed by a late partial response) exceeds timeout + slack: seeded change C09-timeout-armed-once
+    gens += [("timing_long", "Gen_Proxy_timing.cfg", 2400, 3)]
     if thorough:
         gens += [("timing", "Gen_Proxy_timing.cfg", 450, 3), ("codes", "Gen_Proxy_codes.cfg", 450, 3)]
     for key, cfg, _, _ in gens:
@@ -227,6 +230,8 @@ def run(tier, replay):
         if not thorough and key in ("timing", "trickle6"):
             # quick: every 3rd timed behaviour (they cost real time), rotated by the seed
             lines = [x for i, x in enumerate(lines) if (i + ctx.seed) % 3 == 0]
+        if not thorough and key == "timing_long":
+            lines = [x for i, x in enumerate(lines) if (i + ctx.seed) % 6 == 0]
         p = run_bin(proxy, ["replay", str(timeout_ms), str(ticks), "32"], stdin_data="\n".join(json.dumps(x) for x in lines) + "\n", timeout=2400)
         out = parse_jsonl(p.stdout)
         if p.returncode != 0 or len(out) != len(lines):
